@@ -49,14 +49,56 @@ def key_table(ctx, fn_regex, adt):
             else:
                 out_.append((d[1], d[3]))
         return out_
+    def const_selectors(rv):
+        """Locals in the cone of the result that are given a constant on several branches (`let tag = match qos { .. }`)."""
+        found, seen_, work_ = [], set(), []
+        for k_ in ("op", "a", "b"):
+            if isinstance(rv.get(k_), dict):
+                work_.append(rv[k_])
+        work_ += rv.get("ops", [])
+        while work_:
+            o = work_.pop()
+            if o.get("k") not in ("move", "copy"):
+                continue
+            l = o["pl"]["l"]
+            if l in seen_ or l <= b.fn["arg_count"]:
+                continue
+            seen_.add(l)
+            ds = b.whole_defs(l)
+            if len(ds) > 1 and all(d[0] == "stmt" and d[3]["rv"]["k"] in ("use", "cast") and (b.fold(d[3]["rv"]["op"]) is not None) for d in ds):
+                found.append((l, ds))
+                continue
+            for d in ds:
+                if d[0] == "stmt":
+                    r2 = d[3]["rv"]
+                    for k_ in ("op", "a", "b"):
+                        if isinstance(r2.get(k_), dict):
+                            work_.append(r2[k_])
+                    work_ += r2.get("ops", [])
+                elif d[0] == "call":
+                    work_ += d[2]["ops"]
+        return found
+    jobs = []
     for i, st in ret_defs(0):
+        sels = const_selectors(st["rv"])
+        if len(sels) == 1:
+            # one entry per value of the selector, judged under the conditions of the branch that chose it
+            for d in sels[0][1]:
+                jobs.append((i, st, {sels[0][0]: [d]}, d[1]))
+        else:
+            jobs.append((i, st, None, i))
+    for i, st, pin, cond_bb in jobs:
         if True:
-            e = _symex_rv(b, st["rv"], 0)
+            b.__dict__["_pin"] = pin
+            try:
+                e = _symex_rv(b, st["rv"], 0)
+            finally:
+                b.__dict__["_pin"] = None
             while e[0] == "agg" and len(e[2]) == 1 and e[1] not in ("Some", "Ok", "Err"):
                 e = e[2][0]             # a newtype around the key (`ActionId(bits)`): the bits
             variant = None
             qos = None
-            for (d, s_) in dominating_edges(b, i):
+            for (d, s_) in sorted(set(dominating_edges(b, i)) | set(dominating_edges(b, cond_bb))):
                 si = b.switch_info(d)
                 if not si or si["kind"] != "discr":
                     continue
